@@ -631,6 +631,8 @@ vp('C18', 'fire', 'seeded/C18-stale-index-after-swap/patch.diff', 'round-10 seed
 vp('C13', 'fire', 'seeded/C13-predict-on-stale-scratch/patch.diff', 'round-10 seed C13: predict on a scratch buffer that set_pva does not refresh')
 vp('C19', 'fire', 'seeded/C19-imu-columns-by-position/patch.diff', 'round-10 seed C19: Imu columns taken by position')
 vp('C06', 'fire', 'seeded/C06-antenna-position-written-into-pva/patch.diff', 'round-10 seed C06: antenna position written back into the caller\'s pva')
+v('C18', 'fire', 'transform.py', "    interpolator = interp1d(state.index, state[other_columns].values, axis=0)", "    interpolator = interp1d(state.index, state[other_columns].values, axis=0, kind='nearest')", 'probe: nearest-neighbour instead of linear interpolation')
+v('C18', 'silent', 'transform.py', "    interpolator = interp1d(state.index, state[other_columns].values, axis=0)", "    interpolator = interp1d(state.index, state[other_columns].values, axis=0, kind='linear')", 'kind spelled out')
 # ------------------------------------------------------------------ geometry C16 C05 C04 C03 C18
 T = 'transform.py'
 v('C16 C05', 'fire', T, '    rn, _, rp = earth.principal_radii(lla[:, 0], lla[:, 2])\n\n    lla[:, 0] +=',
